@@ -46,3 +46,11 @@ reg("C12", "property-based testing by construction against defining (in)equaliti
 reg("C18", "property-based testing against brute-force and independent Stern-Brocot/Farey oracles with own IEEE and FBig rounding definitions (proptest, 18 mode×base instantiations)",
     "Interval end points from all classes (equal, swapped, zero, integer, straddling, negative, u = l ± 1/huge, shared continued-fraction prefixes), denominator limits relative to the convergents of x, every finite f32/f64 class plus NaN/inf, FBig in 3 bases × 6 modes × precisions 0..40; simplest_in / simplest_from_* must equal the unique simplest fraction of the exact open interval resp. of the exact rounding interval, next_up/next_down must equal the Farey neighbours (accelerated walk cross-checked by brute force and the extended-Euclid adjacency test), nearest the closer one with sign(result − self), is_simpler_than the documented lexicographic order.",
     TRUST + " ErrorBounds is only required to cover the exact rounding interval; tightness is judged through simplest_from_float. Limits whose linear Farey walk would exceed 150k steps are not executed.")
+
+reg("C13", "property-based differential testing vs num-bigint: reduce-then-operate = operate-then-reduce over constructed ring/element/exponent classes (proptest)",
+    "Rings from every ConstDivisor representation (1, 2, 2^k, one/two words with and without normalisation shift, 3-48 words (200 thorough), even, low-words-zero, shared-factor and perfect-square moduli) × elements built relative to the modulus (0, m±1, k·m, m−a, a·b=m, any sign/size, all primitive types) × exponents 0..12 words; every form of + - * / Neg dbl sqr pow inv == residue modulus IntoRing and the num_modular::Reducer impl compared with num-bigint (own square-and-multiply cross-checked with modpow); residues in [0,m); inv Some ⇔ gcd=1; non-invertible division and any mixing of two ConstDivisor instances must panic with the documented message.",
+    TRUST)
+
+reg("C08", "property-based testing (proptest): grammar-directed strings + single-edit mutations + arbitrary Unicode vs an independent reference parser; print→parse round trips incl. flags/width/.N for 7 formatters; exact-rational six-clause faithful-rounding contract for precision/base changes over 12 base pairs × 6 modes",
+    "Strings generated from the documented grammar per base together with the value and digit count they denote, their mutations and arbitrary text through FromStr/from_str_native; values printed with Display/LowerExp/UpperExp/Binary/Octal/Hex (flags, width, .N) and read back by the reference parser; with_precision, with_base, with_base_and_precision, to_decimal, to_binary judged by the exact contract (representable⇒Exact, <1 ulp, side per mode, truthful flag, <= p+1 digits) in both convert_base regimes; documented target precision formula; exact import of every IEEE class.",
+    TRUST + " Spots the float rustdoc leaves unspecified (underscore-only parts, 0X prefix) accept Err or the natural value.")
